@@ -3,6 +3,7 @@ from harness import core
 
 PROP = "C20"
 LEAN_MODULES = ["MpgsModel.Props.C20"]
+MODEL_MODULES = ["MpgsModel.Model.Dispatch"]
 NS = "Mpgs.Dispatch."
 THEOREMS = [
     (NS + "C20_one_binding_per_class", "full"),
